@@ -324,7 +324,16 @@ SELF_GUARDED = {
 
 
 def check_recursion(repo, res, facts, cg):
-    provs = {p['fi'].key for p in c04.provisional_sources(repo)}
+    plist = c04.provisional_sources(repo)
+    for p in plist:
+        g = p['fi']
+        b = p.get('bypass') or []
+        res.check('C08-R4', '%s guard is complete' % g.qual, not b, g.rel, b[0].lineno if b else g.node.lineno,
+                  '%s makes the call `%s` after its re-entrancy test but before it sets the in-progress marker %s: that path '
+                  'recurses unguarded (a cycle made only of such values recurses until RecursionError)'
+                  % (g.qual, unparse(b[0])[:60] if b else '', p['marker']),
+                  sample='%s: every call is made with the marker %s set' % (g.qual, p['marker']))
+    provs = {p['fi'].key for p in plist}
     keys = [k for k in facts.funcs if not k.startswith('supp/umsgpack.py') and k not in provs]
     adj = {}
     for k in keys:
